@@ -201,6 +201,14 @@ def build(prog):
             c = (xx ** 2 / 2 + x0_ ** 2 == s_)
             pep.add_constraint(c)
             b.held["s_pd"] = s_
+        elif code == "dup":         # the same Constraint object declared twice on the problem
+            c = ((xx - x0_) ** 2 <= 3 / 4)
+            pep.add_constraint(c)
+            pep.add_constraint(c)
+        elif code == "dupf":        # the same Constraint object declared on the problem and on the function
+            c = ((xx - x0_) ** 2 <= 7 / 8)
+            pep.add_constraint(c)
+            f.add_constraint(c)
         elif code == "pg":
             c = (2 * (xx * x0_) >= -7)          # 'greater than' written by the user, mirrored key shape
             pep.add_constraint(c)
@@ -249,6 +257,8 @@ def build(prog):
     pep.set_performance_metric(m1)
     b.held["m1"] = m1
     if prog.get("metrics", 1) >= 2:
+        if prog.get("lmimetric") and "u0" in b.held:
+            m2 = b.held["u0"] + 0      # [[a, t], [u, 1]] with metrics t and u: the two off-diagonal entries play symmetric roles
         pep.set_performance_metric(m2)
         b.held["m2"] = m2
     return b
